@@ -230,18 +230,11 @@ func init() {
 				// maximality in the implementation's own relation
 				flags := ""
 				if w1 != nil {
-					for _, r := range rs {
-						if r.DNSRewrite == nil && !r.IsOptionEnabled(rules.OptionBadfilter) && r.IsHigherPriority(w1) {
-							// r may have been disabled by a badfilter twin
-							dis := false
-							for _, b := range rs {
-								if b.IsOptionEnabled(rules.OptionBadfilter) && strings.Replace(strings.Replace(b.RuleText, ",badfilter", "", 1), "$badfilter", "", 1) == r.RuleText {
-									dis = true
-								}
-							}
-							if !dis {
-								flags = "!OUTRANKED-BY:" + r.RuleText
-							}
+					// only the effective rules compete: a rule disabled by a $badfilter twin (whatever the order of its
+					// modifiers in the text) does not.  RemoveBadfilterRules is the subject of C08.
+					for _, r := range rules.RemoveBadfilterRules(rs) {
+						if r.DNSRewrite == nil && r.IsHigherPriority(w1) {
+							flags = "!OUTRANKED-BY:" + r.RuleText
 						}
 					}
 				}
